@@ -460,6 +460,23 @@ def h11_client_view(desc):
 
 
 # -------------------------------------------------------------------------------------- harness
+_LOGGING_BEGUN = [False]
+
+
+def _attach_log_observer(obs):
+    """Make `obs` a global log observer.  The first call *begins* logging with it, which also switches off twisted's
+    temporary stderr printer of critical events: a shard that prints a traceback per provoked failure fills its
+    stdout pipe and then blocks until the runner gets round to reading it (shards would run one after the other)."""
+    from twisted.logger import globalLogBeginner, globalLogPublisher
+
+    if not _LOGGING_BEGUN[0]:
+        _LOGGING_BEGUN[0] = True
+        globalLogBeginner.beginLoggingTo([obs], redirectStandardIO=False, discardBuffer=True)
+    else:
+        globalLogPublisher.addObserver(obs)
+
+
+
 class Boom(BaseException):
     """An application error that is not an Exception (pattern: call-outs guarded by `except Exception` only)."""
 
@@ -493,7 +510,7 @@ class Harness:
         self.PotentialDataLoss = PotentialDataLoss
         self.log = LogCapture()
         self.pub = globalLogPublisher
-        self.pub.addObserver(self.log)
+        _attach_log_observer(self.log)
 
         class Body(Protocol):
             def __init__(s, hooks=None):
